@@ -35,6 +35,46 @@ func copiesInto(mk ssa.Value) []*ssa.Call {
 	return out
 }
 
+// prfPrimeStreamTest: cond is `len(acc) < K` on the byte slice the round loop accumulates (fed by append / Sum on a
+// back edge of a loop header phi): whether the rounds produce K octets is what the shape rule decides (at least
+// ceil(208/32) rounds of 32 octets), not a property of the inputs.
+func prfPrimeStreamTest(f *FA, cond ssa.Value) (bool, string) {
+	bo, ok := cond.(*ssa.BinOp)
+	if !ok || bo.Op != token.LSS {
+		return false, ""
+	}
+	if _, isK := bo.Y.(*ssa.Const); !isK {
+		return false, ""
+	}
+	lc, ok := bo.X.(*ssa.Call)
+	if !ok {
+		return false, ""
+	}
+	if bi, isB := lc.Call.Value.(*ssa.Builtin); !isB || bi.Name() != "len" {
+		return false, ""
+	}
+	ph, ok := lc.Call.Args[0].(*ssa.Phi)
+	if !ok || !isByteSlice(ph.Type()) {
+		return false, ""
+	}
+	for _, li := range naturalLoops(f.Fn) {
+		if li.header != ph.Block() {
+			continue
+		}
+		for i, e := range ph.Edges {
+			if !li.body[li.header.Preds[i]] {
+				continue
+			}
+			if call, isCall := e.(*ssa.Call); isCall {
+				if isAppendCall(call) != nil || (call.Call.IsInvoke() && call.Call.Method.Name() == "Sum") {
+					return true, "the length of the stream the rounds accumulate is decided by the round count of the shape rule"
+				}
+			}
+		}
+	}
+	return false, ""
+}
+
 // RunC16 decides property C16.
 func RunC16(c *Ctx, r *Report) {
 	prefix := "C16."
@@ -47,6 +87,14 @@ func RunC16(c *Ctx, r *Report) {
 		return
 	}
 	r.Func(c.FuncName(fn))
+	// totality on the property's domain: IK', CK' of 1..64 octets and identities of 0..255 octets derive keys;
+	// no failure exit is reachable (an identity of exactly 255 octets included). The test of the derived stream's
+	// length is decided by the shape rule below (at least ceil(208/32) rounds of 32 octets each).
+	c.domainTotalRule(r, prefix+"total-on-domain",
+		"no failure exit of EapAkaPrimePRF is reachable for IK', CK' of 1..64 octets and an identity of 0..255 octets (the test of the derived stream's length is decided by the round count of the shape rule)",
+		1, map[*ssa.Function]*domSpec{fn: {ExactLenParam: -1,
+			LenDom: map[string][2]int64{fn.Params[0].Name(): {1, 64}, fn.Params[1].Name(): {1, 64}, fn.Params[2].Name(): {0, 255}},
+			EnvErr: map[string]string{}, Delegated: prfPrimeStreamTest}}, []*ssa.Function{fn})
 	f := c.NewFA(fn)
 	rule := prefix + "prf-prime-shape"
 	r.Rule(rule, "PRF'(IK'|CK', \"EAP-AKA'\"|Identity): T1 = HMAC-SHA-256(K, S|0x01), Tn = HMAC-SHA-256(K, Tn-1|S|n); MK = T1|T2|...; keys are fixed slices of MK", 10)
